@@ -83,7 +83,7 @@ func (it *Iterator) Refresh() {
 	if it.Valid() {
 		itm := it.snap.db.ptrToItem(it.GetNode().Item())
 		it.iter.Close()
-		it.iter = it.snap.db.store.NewIterator(it.snap.db.iterCmp, it.buf)
+		it.iter = it.snap.db.store.NewIterator(it.snap.db.insCmp, it.buf)
 		it.iter.Seek(unsafe.Pointer(itm))
 		it.skipUnwanted()
 	}
@@ -109,9 +109,15 @@ func (m *Nitro) NewIterator(snap *Snapshot) *Iterator {
 		return nil
 	}
 	buf := snap.db.store.MakeBuf()
+	// The cursor orders items exactly as the store does, by (key, bornSn). A seek
+	// key carries bornSn 0, so Seek still lands on the oldest version of the first
+	// key >= the target; but when the cursor has to recover from a concurrently
+	// deleted node it re-searches its own position exactly. With a key-only
+	// comparator that recovery could move back to an older version of the same
+	// key and deliver an item twice.
 	return &Iterator{
 		snap: snap,
-		iter: m.store.NewIterator(m.iterCmp, buf),
+		iter: m.store.NewIterator(m.insCmp, buf),
 		buf:  buf,
 	}
 }
